@@ -559,6 +559,10 @@ def run(tier, pid="C12"):
 
     mc = ["ts_mcQ.cfg", "ts_mcR.cfg", "ts_mcT.cfg"] if quick else ["ts_mcQ.cfg", "ts_mcR.cfg", "ts_mcT.cfg", "ts_mcK.cfg", "ts_mc41.cfg", "ts_mc23.cfg", "ts_mc33.cfg"]
     exps = ["ts_exp21.cfg", "ts_exp22q.cfg"] if quick else ["ts_exp21.cfg", "ts_exp22.cfg"]
+    from . import apalache
+
+    apalache_pool = ThreadPoolExecutor(1)
+    apalache_job = apalache_pool.submit(apalache.obligations, rep)
     pool = ThreadPoolExecutor(2)
     jobs = {
         cfg: pool.submit(tlc.run_tlc, "conc", "MCThreadsafe", cfg, workers=4, coverage=True, timeout=1500, env=env_tree)
@@ -686,10 +690,10 @@ def run(tier, pid="C12"):
                            "C12 invariant: %s" % (v[1], jdump(abstract(tr))[:400]))
     if not rep.samples:
         rep.sample({"note": "see tlc_runs"})
-    # unbounded number of blocks: Apalache discharges an inductive invariant of the semaphore protocol
-    from . import apalache
-
-    apalache.obligations(rep)
+    # unbounded number of blocks: Apalache discharges an inductive invariant of the semaphore protocol (started in
+    # the background at the beginning of the run; a MachineryError raised there surfaces here)
+    apalache_job.result()
+    apalache_pool.shutdown()
     rep.exhaustive = False
     rep.extra["explanation"] = (
         "TLC: exhaustive for the bounded instances in spec/conc/ts_mc*.cfg; real executions: exhaustive up to the "
